@@ -137,6 +137,100 @@ func extendedDump(ms *yang.Modules, errs []error) (base, ext []string) {
 	return base, ext
 }
 
+// queries asks the Modules value what a caller can ask it after a Process, beyond the trees:
+// FindModuleByNamespace for every namespace in play and an unknown one, FindModule for every name
+// and name@revision (modules by import, submodules by include) and an unknown name, Entry.Find
+// from every module root to sampled nodes of its tree and across an import, and - when
+// withGetModule - GetModule of the first module (which runs Process once more).  The answers are
+// rendered with the source position of what was found, so that two revisions are told apart.
+func queries(ms *yang.Modules, errs []error, withGetModule bool) []string {
+	var out []string
+	where := func(m *yang.Module) string {
+		if m == nil {
+			return "nil"
+		}
+		return m.Kind() + " " + m.FullName() + "@" + yang.Source(m)
+	}
+	nss := map[string]bool{"urn:c18:nobody": true}
+	for _, m := range ms.Modules {
+		if m.Namespace != nil {
+			nss[m.Namespace.Name] = true
+		}
+	}
+	for _, ns := range lib.SortedKeys(nss) {
+		if m, err := ms.FindModuleByNamespace(ns); err != nil {
+			out = append(out, "Q namespace "+ns+" -> error: "+err.Error())
+		} else {
+			out = append(out, "Q namespace "+ns+" -> "+where(m))
+		}
+	}
+	split := func(k string) (string, *yang.Value) {
+		if i := strings.IndexByte(k, '@'); i >= 0 {
+			return k[:i], &yang.Value{Name: k[i+1:]}
+		}
+		return k, nil
+	}
+	keys := lib.SortedKeys(ms.Modules)
+	for _, k := range append(keys, "c18nobody") {
+		n, rev := split(k)
+		out = append(out, "Q import "+k+" -> "+where(ms.FindModule(&yang.Import{Name: n, RevisionDate: rev})))
+	}
+	for _, k := range append(lib.SortedKeys(ms.SubModules), "c18nobody") {
+		n, rev := split(k)
+		out = append(out, "Q include "+k+" -> "+where(ms.FindModule(&yang.Include{Name: n, RevisionDate: rev})))
+	}
+	if len(errs) == 0 {
+		for _, m := range lib.DistinctModules(ms) {
+			root := yang.ToEntry(m)
+			n := 0
+			var walk func(e *yang.Entry, path string)
+			walk = func(e *yang.Entry, path string) {
+				if n >= 12 {
+					return
+				}
+				if path != "" {
+					n++
+					got := "nil"
+					if f := root.Find(path); f != nil {
+						got = f.Path()
+					}
+					out = append(out, "Q find "+m.FullName()+" "+path+" -> "+got)
+				}
+				for _, k := range lib.SortedKeys(e.Dir) {
+					walk(e.Dir[k], path+"/"+k)
+				}
+			}
+			walk(root, "")
+			// across an import: the first child of each imported module, by the import's prefix
+			for _, imp := range m.Import {
+				if imp.Prefix == nil {
+					continue
+				}
+				if im := ms.FindModule(imp); im != nil {
+					if ks := lib.SortedKeys(yang.ToEntry(im).Dir); len(ks) > 0 {
+						p := "/" + imp.Prefix.Name + ":" + ks[0]
+						got := "nil"
+						if f := root.Find(p); f != nil {
+							got = f.Path() + " in " + where(yang.RootNode(f.Node))
+						}
+						out = append(out, "Q find "+m.FullName()+" "+p+" -> "+got)
+					}
+				}
+			}
+		}
+	}
+	if withGetModule && len(keys) > 0 {
+		n, _ := split(keys[0])
+		e, gerrs := ms.GetModule(n)
+		got := "nil"
+		if e != nil {
+			got = e.Path() + " with " + fmt.Sprint(len(e.Dir)) + " children"
+		}
+		out = append(out, "Q getmodule "+n+" -> "+got+" "+strings.Join(lib.CanonErrs(gerrs), ","))
+	}
+	return out
+}
+
 func nameMaps(ms *yang.Modules) map[string]*yang.Module {
 	out := map[string]*yang.Module{}
 	for k, v := range ms.Modules {
@@ -221,6 +315,10 @@ func runGo(h History) GoRes {
 			}
 			ferrs := fresh.Process()
 			_, fext := extendedDump(fresh, ferrs)
+			// the queries a caller can make now, on both values (GetModule, which processes once
+			// more, at every third operation only)
+			ext = append(ext, queries(ms, errs, i%3 == 0)...)
+			fext = append(fext, queries(fresh, ferrs, i%3 == 0)...)
 			if d := rescorr.Diff(ext, fext); d != "" {
 				sr.BatchDiff = strings.Replace(d, "| model:", "| batch on a fresh set:", 1)
 				sr.BatchDiff = strings.Replace(sr.BatchDiff, "go:", "history:", 1)
@@ -248,6 +346,9 @@ func runGo(h History) GoRes {
 				lib.DumpTree(m.FullName(), e, &sink)
 				e.GetErrors()
 			}
+			// ... and ask for namespaces and modules by name (answers are not compared here: the
+			// set may be unprocessed; the same questions are compared after every Process)
+			queries(ms, []error{nil}, false)
 			sr.Read = "walked"
 		}
 		res.Steps = append(res.Steps, sr)
